@@ -400,6 +400,61 @@ impl Leg for Rerun {
     }
 }
 
+/// the same check through the built executable (`kmertools cov`, options in the ranges it accepts: k 7..=31, bin
+/// size and count >= 5, memory 6) under generated environments (pool-size variable, CPUs available to the
+/// process, relative paths, locale): rows identical for every thread count *and* wherever the command runs
+pub struct Executable;
+impl Leg for Executable {
+    type Case = Case;
+    const NAME: &'static str = "executable";
+    fn strategy(tier: Tier) -> BoxedStrategy<Case> {
+        Runs::strategy(tier)
+            .prop_map(|mut c| {
+                c.k = 7 + c.k % 25;
+                c.bin_size = c.bin_size.max(5);
+                c.bin_count = c.bin_count.max(5);
+                c.mem = CovMem::Six;
+                c.stretch = None;
+                c
+            })
+            .boxed()
+    }
+    fn check(c0: &Case) -> Verdict {
+        let mut v = Verdict::new();
+        let c = &Case { recs: materialise(c0), edge: None, poly: None, ..c0.clone() };
+        let dir = crate::scratch_dir();
+        let input = io::write_input(dir.path(), "in", &c.recs, &c.cont);
+        let alt_path = c.alt.as_ref().map(|a| io::write_input(dir.path(), "alt", a, &Container::plain_fasta()));
+        let out = dir.path().join("out");
+        // threads and environment from the case's content (0 = automatic)
+        let h = crate::util::fnv64(format!("{:?}{}{}", c.recs.len(), c.k, c.bin_size).as_bytes());
+        let threads = [0usize, 1, 2, 3, 8, 16, c.threads][(h % 7) as usize];
+        let preset = match c.delim.as_str() { "," => super::cmd::Preset::Csv, "\t" => super::cmd::Preset::Tsv, _ => super::cmd::Preset::Spc };
+        let cmd = super::cmd::Cmd { k: c.k as u64, preset, bin_size: c.bin_size as u64, bin_count: c.bin_count as u64, memory: 6, counts: !c.norm, alt: c.alt.is_some(), threads, env_profile: ((h >> 8) % 128) as u8, ..super::cmd::Cmd::base(super::cmd::Sub::Cov) };
+        v.class("cov-executable");
+        v.class_if(cmd.env_profile >> 5 & 3 == 1, "one-cpu-available");
+        v.class_if(threads == 0, "threads-automatic");
+        let o = super::cmd::run_via_cli(&cmd, &input, alt_path.as_deref(), &out, None);
+        if o.timed_out {
+            v.class("cli-timeout");
+            return v;
+        }
+        if !o.clean() {
+            v.fail("cli-failed", format!("{:?}: {}", cmd.args("IN", Some("ALT"), "OUT"), o.describe()));
+            return v;
+        }
+        let counting: &[Rec] = c.alt.as_deref().unwrap_or(&c.recs);
+        match o.files.get("kmers.vectors") {
+            None => v.fail("no-vectors-file", "kmers.vectors does not exist"),
+            Some(data) => match check_vectors(data, &c.recs, counting, c.k, c.bin_size, c.bin_count, c.norm, &c.delim) {
+                Ok((sat, multi)) => v.nontrivial = c.recs.len() >= 2 && (sat || multi),
+                Err((s, m)) => v.fail(format!("executable-{}", s), format!("{:?} (environment profile {}): {}", cmd.args("IN", Some("ALT"), "OUT"), cmd.env_profile, m)),
+            },
+        }
+        v
+    }
+}
+
 /// one CovComputer object used for several rounds: set_kmer_path / build_table / compute_coverages with a
 /// changing counting input (and the same one twice); every round's vectors against the model of that round
 #[derive(Clone, Debug, Serialize, Deserialize)]
@@ -503,6 +558,9 @@ impl Leg for DupStress {
 }
 
 pub fn run(ctx: &mut Ctx) {
+    let n = ctx.share(ctx.tier.pick(400, 8_000));
+    ctx.run_leg::<Executable>(n, false, 60);
+    super::timeouts_inconclusive(ctx);
     let n = ctx.share(ctx.tier.pick(600, 10_000));
     ctx.run_leg::<Reuse>(n, true, 60);
     let n = ctx.share(ctx.tier.pick(240, 4_800));
@@ -521,6 +579,7 @@ pub fn replay(leg: &str, case: &serde_json::Value) -> Option<Result<Verdict, Str
         "rerun-in-place" => Some(crate::engine::replay_leg::<Rerun>(case)),
         "contention-new-keys" => Some(crate::engine::replay_leg::<DupStress>(case)),
         "one-object-several-rounds" => Some(crate::engine::replay_leg::<Reuse>(case)),
+        "executable" => Some(crate::engine::replay_leg::<Executable>(case)),
         _ => None,
     }
 }
